@@ -25,7 +25,7 @@ def grammar_cpp(g, lexer='tok', ctx=None, ns='g', limits=None):
         if f in ('hash', 'ctxhash'):
             ps = []; args = []
             for k, x in enumerate(r['rhs']):
-                if x == 'error': ps.append('skip'); continue
+                if x == 'error': ps.append('skip'); args.append('0u'); continue
                 if x in g.tnames: ps.append('const term_value<unsigned>& a%d' % k)
                 else: ps.append('unsigned a%d' % k)
                 args.append('a%d' % k)
@@ -108,6 +108,12 @@ void harness(void) {
   OPTS = (nondet_uint() & OPT_MASK) | OPT_FIXED;
 #ifdef IN_ASSUME
   __CPROVER_assume(IN_ASSUME);
+#endif
+#ifdef KNOWN_EXCLUDE
+  __CPROVER_assume(KNOWN_EXCLUDE);   /* inputs listed in known_findings.json; the complement is proved */
+#endif
+#ifdef KNOWN_ONLY
+  __CPROVER_assume(KNOWN_ONLY);      /* confirmation query for one listed finding */
 #endif
   RUN(IN, OPTS, OUT);
   if (exc_pending) OUT[O_THROWN] = 1;
